@@ -59,9 +59,24 @@ Example C05_over_limit_nonvacuous :
   valid (CPath p) /\ known (CPath p) = 0 /\ over_limit p = true.
 Proof. cbv zeta. split; [cbn [repeat]; repeat constructor; cbn; try lia; discriminate|]. split; vm_compute; reflexivity. Qed.
 
+(* the same for every printable path, known class 2 included: the text parses back to the canonical
+   form of the path (canon: a String id in namespace 0 that spells a standard reference type name
+   becomes the numeric id, nothing else changes), and in class 2 that form differs from the path;
+   so class 2 is exactly the set of printable paths within the limits that do not round-trip *)
+Theorem C05_canonical_roundtrip : forall p,
+  valid (CPath p) -> existsb unprintable p = false -> over_limit p = false ->
+  exists s, print_path p = Ok s /\ parse s = Ok (map canon p).
+Proof. exact canonical_roundtrip. Qed.
+Print Assumptions C05_canonical_roundtrip.
+
+Theorem C05_known_2_changes : forall p, known (CPath p) = 2 -> map canon p <> p.
+Proof. exact known_2_changes. Qed.
+Print Assumptions C05_known_2_changes.
+
 (* one element: the element pattern, the target-name pattern, the flags and the resolvers *)
-Theorem C05_element_roundtrip : forall e w, good e -> print_elem e = Ok w -> parse_elem w = Ok e.
-Proof. exact parse_elem_print. Qed.
+Theorem C05_element_roundtrip : forall e w,
+  printable e -> print_elem e = Ok w -> parse_elem w = Ok (canon e) /\ (aliasing e = false -> canon e = e).
+Proof. exact element_roundtrip. Qed.
 Print Assumptions C05_element_roundtrip.
 
 (* the eight sequential escape passes are the per-character map; the eight sequential unescape
@@ -80,6 +95,10 @@ Print Assumptions C05_unescape_escape.
 Theorem C05_parse_total : forall s, parse s <> Panic.
 Proof. exact parse_total. Qed.
 Print Assumptions C05_parse_total.
+
+Theorem C05_parse_bounded : forall s p, parse s = Ok p -> (length p <= 32)%nat.
+Proof. exact parse_bounded. Qed.
+Print Assumptions C05_parse_bounded.
 
 (* ---- the printer panics exactly on known class 1 ------------------------------------------------- *)
 Theorem C05_print_panics_iff : forall p, print_path p = Panic <-> known (CPath p) = 1.
